@@ -292,4 +292,8 @@ def run(P, R, tier):
     # the request table orders ids with the int comparator: a comparator that is not a total order files one client
     # where another client's traffic decides whether it is found
     c19.comparators(P, R, 'C07.ARITH.2')
+    # whether a client is held depends on its own awaiting mask, not on what other clients wait for
+    holds.soft_hold_typestate(P, R, 'C07.GRD.3')
+    # one client's line is handled whatever line of another client precedes it in the same read
+    c08.drains_buffer(P, R, 'C07.MPT.2')
     return EXPLANATION, ASSUMPTIONS
